@@ -232,6 +232,14 @@ def _own_module(seed: int, size: int, feats: list[str]):
         p = mod.define_function("pid", [v0], [v0], type_params=params)
         p.set_outputs(p.inputs()[0])
         funcs.append((p.parent_node, [v0], [v0], params))
+        if rng.random() < 0.5:
+            # row-polymorphic: prow<R: [Type]>(R...) -> R..., called at rows of length 0, 1, 2 (the ports of a call are
+            # those of the instantiation, not of the declared body)
+            rp = tys.ListParam(tys.TypeTypeParam(CB))
+            rv = tys.RowVariable(0, CB)
+            pr = mod.define_function("prow", [rv], [rv], type_params=[rp])
+            pr.set_outputs(*pr.inputs())
+            funcs.append((pr.parent_node, "row", "row", [rp]))
     if "const" in F:
         for _ in range(rng.randint(1, 2)):
             t = rng.choice([tys.Bool, I5, TUP, tys.Unit])
@@ -384,13 +392,20 @@ def _own_module(seed: int, size: int, feats: list[str]):
             elif k == "call" and funcs:
                 fn, ins, outs, params = rng.choice(funcs)
                 a = rng.choice([tys.Bool, I5, TUP])
-                ins_, outs_ = [subst(t, a) for t in ins], [subst(t, a) for t in outs]
+                if ins == "row":
+                    row = [rng.choice([tys.Bool, I5, TUP]) for _ in range(rng.choice([0, 0, 1, 2, 2, 3]))]
+                    ins_, outs_ = list(row), list(row)
+                    targs = [tys.SequenceArg([tys.TypeTypeArg(t) for t in row])]
+                else:
+                    ins_, outs_ = [subst(t, a) for t in ins], [subst(t, a) for t in outs]
+                    targs = None
                 ws = [pick(t) for t in ins_]
                 if all(w is not None for w in ws):
                     if params is None:
                         n = b.call(fn, *ws)
                     else:
-                        n = b.call(fn, *ws, instantiation=tys.FunctionType(ins_, outs_), type_args=args_for(params, a))
+                        n = b.call(fn, *ws, instantiation=tys.FunctionType(ins_, outs_),
+                                   type_args=targs if targs is not None else args_for(params, a))
                     note(n)
                     for i, t in enumerate(outs_):
                         if rng.random() < 0.8:
@@ -398,12 +413,18 @@ def _own_module(seed: int, size: int, feats: list[str]):
             elif k == "loadfn" and funcs and "loadfn" in F:
                 fn, ins, outs, params = rng.choice(funcs)
                 a = rng.choice([tys.Bool, I5])
-                ins_, outs_ = [subst(t, a) for t in ins], [subst(t, a) for t in outs]
+                targs = None
+                if ins == "row":
+                    row = [rng.choice([tys.Bool, I5]) for _ in range(rng.choice([0, 1, 2]))]
+                    ins_, outs_ = list(row), list(row)
+                    targs = [tys.SequenceArg([tys.TypeTypeArg(t) for t in row])]
+                else:
+                    ins_, outs_ = [subst(t, a) for t in ins], [subst(t, a) for t in outs]
                 ft = tys.FunctionType(ins_, outs_)
                 if params is None:
                     n = b.load_function(fn)
                 else:
-                    n = b.load_function(fn, instantiation=ft, type_args=args_for(params, a))
+                    n = b.load_function(fn, instantiation=ft, type_args=targs if targs is not None else args_for(params, a))
                 note(n)
                 ws = [pick(t) for t in ins_]
                 if all(w is not None for w in ws) and rng.random() < 0.7:
